@@ -1,6 +1,9 @@
 package main
 
 import (
+	"fmt"
+	"strings"
+	"stgutg"
 	"free5gclib/milenage"
 	"tglib"
 
@@ -10,8 +13,24 @@ import (
 // Octet strings arrive as hex; every slice handed to the code under test has capacity == length
 // (a fresh make + copy), so a Go slice expression beyond the length panics instead of reading the
 // spare capacity hex.DecodeString leaves behind.  Output buffers have the documented sizes, zero filled.
+//
+// With "reuse": true in the case the slice is a PERSISTENT buffer (one per field name and length, kept for the life
+// of the harness process) whose contents are overwritten: a caller that decodes every subscriber into the same
+// pre-allocated buffers.  Results must not depend on it.
+var reuseBufs = map[string][]byte{}
+
 func exact(in map[string]interface{}, k string) []byte {
 	b := unhex(in, k)
+	if v, ok := in["reuse"].(bool); ok && v {
+		key := fmt.Sprintf("%s/%d", k, len(b))
+		r, ok := reuseBufs[key]
+		if !ok {
+			r = make([]byte, len(b))
+			reuseBufs[key] = r
+		}
+		copy(r, b)
+		return r
+	}
 	r := make([]byte, len(b))
 	copy(r, b)
 	return r
@@ -62,8 +81,16 @@ func milAuts(in map[string]interface{}) map[string]interface{} {
 // expression of stgutg.RegisterUE (copied, RegisterUE itself needs an SCTP association).
 func derive(in map[string]interface{}) map[string]interface{} {
 	mnc, mcc := str(in, "mnc"), str(in, "mcc")
-	ue := tglib.NewRanUeContext(str(in, "supi"), 1, uint8(num(in, "ea")), uint8(num(in, "ia")))
-	ue.AuthenticationSubs = tglib.GetAuthSubscription(str(in, "k"), str(in, "opc"), str(in, "op"))
+	var ue *tglib.RanUeContext
+	if str(in, "via") == "createue" && strings.HasPrefix(str(in, "supi"), "imsi-") {
+		// the emulator's own path: stgutg.CreateUE(initial IMSI, index 0, K, OPC, OP); the algorithms are then set
+		// to the case's values (CreateUE itself picks NEA0/NIA2)
+		ue = stgutg.CreateUE(strings.TrimPrefix(str(in, "supi"), "imsi-"), 0, str(in, "k"), str(in, "opc"), str(in, "op"))
+		ue.CipheringAlg, ue.IntegrityAlg = uint8(num(in, "ea")), uint8(num(in, "ia"))
+	} else {
+		ue = tglib.NewRanUeContext(str(in, "supi"), 1, uint8(num(in, "ea")), uint8(num(in, "ia")))
+		ue.AuthenticationSubs = tglib.GetAuthSubscription(str(in, "k"), str(in, "opc"), str(in, "op"))
+	}
 	var autn [16]uint8
 	copy(autn[:], unhex(in, "autn"))
 	rand := exact(in, "rand")
